@@ -511,10 +511,25 @@ func NewExec(cfg Config, out *bufio.Writer) *Exec {
 	return &Exec{Cfg: cfg, Out: out, rng: rand.New(rand.NewSource(cfg.Seed)), Cover: map[string]int{}}
 }
 
+// LogBroken is a "broken" event: a valid call of the harness itself into the library (reading the world to choose
+// the next operation, or serialising what was read) panicked; the history ends here.
+type LogBroken struct {
+	K     string `json:"k"`
+	Where string `json:"where"`
+	Msg   string `json:"msg"`
+}
+
 func (x *Exec) emit(v any) {
-	b, err := json.Marshal(v)
+	b, err := func() (b []byte, err error) {
+		defer func() {
+			if r := recover(); r != nil {
+				err = fmt.Errorf("%v", r)
+			}
+		}()
+		return json.Marshal(v)
+	}()
 	if err != nil {
-		panic(err)
+		b, _ = json.Marshal(LogBroken{K: "broken", Where: "emit", Msg: fmt.Sprint(err)})
 	}
 	x.Out.Write(b)
 	x.Out.WriteByte('\n')
@@ -2039,22 +2054,26 @@ func (x *Exec) RunSequence(ops []GenOp, note string) {
 	x.seq++
 	x.newWorld()
 	x.emit(LogReset{K: "reset", Seq: x.seq, Rel: x.relNames(), Cfg: x.Cfg, Note: note})
-	for i, op := range ops {
-		lo := x.run(op, i+1)
-		x.emit(lo)
-		if x.Cfg.EveryOp {
+	if msg := x.guard(func() {
+		for i, op := range ops {
+			lo := x.run(op, i+1)
+			x.emit(lo)
+			if x.Cfg.EveryOp {
+				x.battery()
+			}
+		}
+		if !x.Cfg.EveryOp {
 			x.battery()
 		}
+		if x.Cfg.Stats {
+			x.statsEvent()
+		}
+		x.qmisBattery()
+		if x.Cfg.Mem {
+			x.memEvent()
+		}
+		x.misuseBattery(len(ops))
+	}); msg != "" {
+		x.emit(LogBroken{K: "broken", Where: "replay", Msg: msg})
 	}
-	if !x.Cfg.EveryOp {
-		x.battery()
-	}
-	if x.Cfg.Stats {
-		x.statsEvent()
-	}
-	x.qmisBattery()
-	if x.Cfg.Mem {
-		x.memEvent()
-	}
-	x.misuseBattery(len(ops))
 }
